@@ -10,7 +10,7 @@ HNext == /\ Len(hist) < HistLen
          /\ \E p \in DOMAIN tree, w \in Works, honest \in BOOLEAN :
               /\ Mine(p, w, honest)
               /\ hist' = Append(hist, [b |-> NextId, parent |-> p, work |-> w, honest |-> honest,
-                                       main |-> main', bad |-> {x \in bad' : TRUE}])
+                                       main |-> main', bad |-> {x \in bad' \cup dropped' : TRUE}])
 HSpec == HInit /\ [][HNext]_<<vars, hist>>
 EmitHist == (Len(hist) = HistLen) => PrintT(<<"HIST", ToJson(hist)>>)
 =============================================================================
